@@ -10,6 +10,7 @@ package common
 
 import (
 	"fmt"
+	"strconv"
 	"sync/atomic"
 	"testing"
 
@@ -26,6 +27,12 @@ func c03Mod(a int) int {
 	}
 	return a
 }
+
+// c03MulR returns x * 2^16 mod q without leaving 32-bit int range (the harness also runs with GOARCH=386).
+func c03MulR(x int) int { return c03Mod(x) * (65536 % c03Q) % c03Q }
+
+// c03Small reports a 32-bit int (GOARCH=386 configuration): the heaviest sweeps are narrowed there.
+const c03Small = strconv.IntSize == 32
 
 // c03Backend tells which back-end the Poly methods dispatch to in this process.
 func c03Backend() string {
@@ -108,9 +115,9 @@ func TestVerifC03_reductions(t *testing.T) {
 		m := int(toMont(int16(x)))
 		r.Eval(1)
 		r.Distinct("toMont", x)
-		if m <= -c03Q || m >= c03Q || c03Mod(m-x*65536) != 0 {
+		if m <= -c03Q || m >= c03Q || c03Mod(m-c03MulR(x)) != 0 {
 			r.Violation("C03|common.toMont|not x*2^16 mod q in (-q,q)", fmt.Sprintf("toMont/%d", x),
-				fmt.Sprintf("toMont(%d) = %d; want value in (-q,q) congruent to %d", x, m, c03Mod(x*65536)), map[string]int{"x": x})
+				fmt.Sprintf("toMont(%d) = %d; want value in (-q,q) congruent to %d", x, m, c03MulR(x)), map[string]int{"x": x})
 		}
 		// the composition used everywhere before packing
 		n := int(csubq(barrettReduce(int16(x))))
@@ -157,7 +164,7 @@ func TestVerifC03_reductions(t *testing.T) {
 				x, y := int(in[i]), int(p[i])
 				r.Eval(1)
 				r.Distinct("Poly.ToMont", arr, x)
-				if y <= -c03Q || y >= c03Q || c03Mod(y-x*65536) != 0 {
+				if y <= -c03Q || y >= c03Q || c03Mod(y-c03MulR(x)) != 0 {
 					r.Violation("C03|common.Poly.ToMont|not x*2^16 mod q in (-q,q)", fmt.Sprintf("PolyToMont/%d/%d/%d", arr, b, i),
 						fmt.Sprintf("Poly.ToMont: lane %d: %d -> %d", i, x, y), map[string]int{"x": x, "lane": i})
 				}
@@ -196,7 +203,7 @@ func TestVerifC03_reductions(t *testing.T) {
 	// --- montReduce: documented domain -2^15 q <= x < 2^15 q: -q < y < q, y 2^16 = x (mod q)
 	lo, hi := -32768*int64(c03Q), 32768*int64(c03Q)
 	firstBlock, lastBlock := int(lo>>16), int((hi-1)>>16)
-	if r.Thorough() {
+	if r.Thorough() && !c03Small {
 		firstBlock, lastBlock = -32768, 32767
 	}
 	var inDom, outOK, outBad atomic.Int64
@@ -235,7 +242,7 @@ func TestVerifC03_reductions(t *testing.T) {
 	r.Count("montReduce_outside_domain_contract_fails(info, not demanded)", int(outBad.Load()))
 	r.RequireCounter("montReduce_domain_points", 65536*int64(c03Q))
 	r.Set("montReduce_swept", map[string]interface{}{"first_block": firstBlock, "last_block": lastBlock, "values": int64(nBlocks) * 65536})
-	if !r.Thorough() {
+	if !r.Thorough() || c03Small {
 		r.Set("montReduce_note", "quick tier sweeps exactly the documented domain (2^16*q values); thorough sweeps all 2^32")
 	}
 }
